@@ -32,6 +32,9 @@ CHECKS = {
  "C12": dict(engine="E1", technique="bounded-exhaustive enumeration of record subsets x all permutations x requirement alphabet; resolve.MatchRequirement and LocalClient.MatchingVersions executed and compared with a hand table in reference order",
    text="Per system (npm, Maven, PyPI) every subset of <= 4 (quick) / 5 (thorough) records of a 9-11 record alphabet (equal-precedence spellings, prereleases, dist-tags, unparsable strings) in every permutation x 10-16 requirements (581 k evaluations quick): both entry points must return exactly the expected matches in ecosystem order regardless of insertion order.",
    note="Trusted: the hand match table. PyPI prerelease records on which packaging 21.3 and 26.3 differ are excluded.", ref="5 C12"),
+ "C15": dict(engine="E1", technique="bounded-exhaustive enumeration of POM lineages (deviation-bounded from four family bases) run through the real decode/MergeProfiles/MergeParent/Interpolate/ProcessDependencies pipeline and compared with Maven's own DefaultModelBuilder on the same files (committed reference table, live in thorough); exhaustive enumeration of property tables for interpolation termination in supervised subprocesses",
+   text="5 459 lineages in quick (<= 2 deviations; 99 000 with <= 3 in thorough) over four families - property precedence across project/ancestors/active and inactive profiles with chained and built-in expressions in every dependency field; dependency-management injection by key with imports at every level (nested, sibling, parented, property-versioned, profile-declared BOMs); profile activation by default, JDK value/negation/range and OS family/name/arch/version and what active profiles contribute; import merge order - are rendered as pom.xml files and the effective dependencies and managed dependencies (all eight fields, in order) compared with Maven 3.8.7 under JDK 11.0.8/linux/amd64. Every property table over 3 (4) keys x 13 values x 15 query strings (33 k / 428 k interpolations) must terminate and equal the substitution model (cyclic: unresolved with the placeholder left).",
+   note="Trusted: Maven 3.8.7's model builder at validation level MINIMAL and the 40-line normal form. Lineages Maven rejects are not compared; several managed declarations of one key inside one file are outside the domain. Four known findings suppressed by exact witness (425 witnesses across tiers), each explained by a triage normaliser (DESIGN 9).", ref="5 C15"),
  "C17": dict(engine="E1", technique="complete enumeration of every declaration of both API versions from embedded descriptors and from the .proto sources (own proto3 parser); simulation check v3 <= v3alpha and descriptor/source/generated-code agreement",
    text="All 6 576 declaration nodes (services, RPCs with HTTP bindings, messages, fields with number/type/cardinality/oneof, enums) of api/v3 and api/v3alpha are enumerated; every v3 node must exist identically in v3alpha (HTTP paths modulo version prefix), .proto text must equal the embedded descriptor in both directions incl. order, generated gRPC stubs and struct tags must equal the descriptor, resolve.System constants must equal the API enum.",
    note="Complete for the finite object it examines (not a bounded sample). Trusted: the 300-line proto3 parser.", ref="5 C17"),
